@@ -7,7 +7,7 @@
    World (data, chosen in Init / taken from the recorded trace):
      W.schema  set of <<shape of signed name, shape of signing certificate name>>: the naming relation
                of the trust schema (what Checker.check decides on names)
-     W.roots   shapes that are roots of trust of the schema
+     W.roots   roots of trust of the schema (one or several); W.covers  shape -> roots of trust it matches
      W.shape   name -> shape, for every name that occurs (also names of certificates that do not exist)
      W.certs   certificate name -> [key (public key it carries), kl (key locator name | "none"),
                sig (key that made its signature | "forged" | "digest"), serv (yes|nack|timeout|absent)]
@@ -54,7 +54,10 @@ El(n) == IF IsPkt(n) THEN [kl |-> W.pkts[n].kl, sig |-> W.pkts[n].sig]
                      ELSE [kl |-> W.certs[n].kl, sig |-> W.certs[n].sig]
 Serv(n) == IF n \in DOMAIN W.certs THEN W.certs[n].serv ELSE "absent"
 SchemaOk(a, b) == <<W.shape[a], W.shape[b]>> \in W.schema
-GoodAnchor(a) == /\ W.shape[a] \in W.roots                     \* matches the schema's roots of trust
+\* the anchor's name must match ALL roots of trust of the schema (rules that sign and are not signed);
+\* W.covers: shape -> roots of trust that names of that shape match
+Covers(sh) == IF sh \in DOMAIN W.covers THEN W.covers[sh] ELSE {}
+GoodAnchor(a) == /\ W.roots # {} /\ W.roots \subseteq Covers(W.shape[a])
                  /\ W.certs[a].sig = W.certs[a].key            \* properly self-signed
 KeyTypeEd == "kt" \in DOMAIN W /\ W.kt = "ed"
 
@@ -252,8 +255,8 @@ Verdict(v) ==
 
 \* every name a world may use (model-checked worlds and recorded random worlds); a constant set, so that TLC
 \* labels the transitions with the action and its parameters
-NameUniverse == {"RA", "RB", "RAx", "RAf", "RAo", "A1", "A2", "A3", "X", "B1", "Z",
-                 "R1", "R2", "R3", "R4", "R5", "C1", "C2", "C3", "C4", "C5", "C6", "C7", "C8",
+NameUniverse == {"RA", "RB", "RAx", "RAf", "RAo", "ROp", "A1", "A1b", "A2", "A3", "X", "B1", "Z",
+                 "R1", "R2", "R3", "R4", "R5", "R6", "C1", "C1b", "C2b", "C2", "C3", "C4", "C5", "C6", "C7", "C8",
                  "P1", "P2", "P3", "P4", "P5", "P6", "P7", "P8", "P9", "P10"}
 Env == \/ \E v \in Inst, a \in NameUniverse : NewValidator(v, a)
        \/ \E v \in Inst, p \in NameUniverse : Validate(v, p)
@@ -295,6 +298,8 @@ Params(maxd) ==
   \cup {[sch |-> "strict", d |-> d, dev |-> x, i |-> i] : <<d, x, i>> \in {t \in (1..maxd) \X CertDevs \X (1..maxd) : t[3] < t[1]}}
   \cup {[sch |-> s, d |-> d, dev |-> "loop", i |-> i] : <<s, d, i>> \in {t \in {"strict", "peer"} \X (2..maxd) \X (2..maxd) : t[3] <= t[2]}}
   \cup {[sch |-> "peer", d |-> d, dev |-> "none", i |-> 0] : d \in 2..maxd}
+  \* a second certificate A1b of the leaf key's NAME (other issuer/version), forged or not retrievable; P2 names it
+  \cup (IF maxd >= 2 THEN {[sch |-> "strict", d |-> 2, dev |-> x, i |-> 1] : x \in {"twinforged", "twinabsent"}} ELSE {})
 
 MCWorld(q) ==
   LET d == q.d
@@ -331,24 +336,39 @@ MCWorld(q) ==
                     ELSE [key |-> "kRA", kl |-> n, sig |-> IF n = "RAf" THEN "forged" ELSE IF n = "RAo" THEN "kO" ELSE "kRA",
                           serv |-> IF n = "RA" THEN "yes" ELSE "absent"]]
       bCert == [n \in {"B1"} |-> [key |-> "kB1", kl |-> "RB", sig |-> "kRB", serv |-> "yes"]]
+      twinDev == q.dev \in {"twinforged", "twinabsent"}
+      twinCert == IF twinDev
+                  THEN [n \in {"A1b"} |-> [key |-> "kA1", kl |-> "RA", sig |-> IF q.dev = "twinforged" THEN "forged" ELSE "kRA",
+                                           serv |-> IF q.dev = "twinabsent" THEN "absent" ELSE "yes"]]
+                  ELSE [n \in {} |-> 0]
+      \* schema "two": a second, separate root of trust #oproot (no name matches both roots);
+      \* schema "twin": a second root rule #root2 that every root-shaped name matches as well
+      opCert == IF q.sch = "two" THEN [n \in {"ROp"} |-> [key |-> "kRA", kl |-> "ROp", sig |-> "kRA", serv |-> "absent"]]
+                ELSE [n \in {} |-> 0]
       pshape == IF peer THEN "d2" ELSE DShape(d)
-  IN [schema |-> IF peer THEN Peer ELSE Strict,
-      roots |-> {"root"},
+  IN [schema |-> IF peer THEN Peer ELSE IF q.sch = "two" THEN Strict \cup {<<"r1", "oproot">>}
+                 ELSE IF q.sch = "twin" THEN Strict \cup {<<"e1", "root">>} ELSE Strict,
+      roots |-> IF q.sch = "two" THEN {"root", "oproot"} ELSE IF q.sch = "twin" THEN {"root", "root2"} ELSE {"root"},
+      covers |-> [sh \in {"root", "oproot"} |-> IF sh = "oproot" THEN {"oproot"}
+                                                ELSE IF q.sch = "twin" THEN {"root", "root2"} ELSE {"root"}],
+      twin |-> IF twinDev THEN [n \in {"A1b"} |-> "A1"] ELSE [n \in {} |-> ""],
       kt |-> "ec",
       epoch |-> 0,
       sch |-> q.sch,
       q |-> q,
-      shape |-> [n \in {"RA", "RB", "RAf", "RAo", "RAx", "X", "A1", "A2", "A3", "B1", "P1", "P2", "P3", "none"} |->
+      shape |-> [n \in {"RA", "RB", "RAf", "RAo", "RAx", "ROp", "X", "A1", "A1b", "A2", "A3", "B1", "P1", "P2", "P3", "none"} |->
                    IF n \in {"RA", "RB", "RAf", "RAo"} THEN "root"
+                   ELSE IF n = "ROp" THEN (IF q.sch = "two" THEN "oproot" ELSE "nil")
+                   ELSE IF n = "A1b" THEN (IF twinDev THEN "c1" ELSE "nil")
                    ELSE IF n \in {"RAx", "X"} THEN "x"
                    ELSE IF n = "A1" THEN "c1" ELSE IF n = "A2" THEN (IF peer THEN "c1" ELSE "c2")
                    ELSE IF n = "A3" THEN (IF peer THEN "c1" ELSE "c3")
                    ELSE IF n = "B1" THEN "c1" ELSE IF n = "P3" THEN "d2"
                    ELSE IF n \in {"P1", "P2"} THEN pshape ELSE "nil"],
-      certs |-> chainCerts @@ xCert @@ anchors @@ bCert,
+      certs |-> chainCerts @@ xCert @@ anchors @@ bCert @@ twinCert @@ opCert,
       pkts |-> [n \in {"P1", "P2", "P3"} |->
                   IF n = "P1" THEN [kl |-> klOf("P1", leafName), sig |-> sigOf("P1", leafKey)]
-                  ELSE IF n = "P2" THEN [kl |-> leafName, sig |-> leafKey]
+                  ELSE IF n = "P2" THEN [kl |-> IF twinDev THEN "A1b" ELSE leafName, sig |-> leafKey]
                   ELSE [kl |-> "B1", sig |-> "kB1"]]]
 
 MCWorlds(maxd) == {MCWorld(q) : q \in Params(maxd)}
@@ -362,10 +382,15 @@ WHeal == {MCWorld(q) : q \in {[sch |-> "strict", d |-> 2, dev |-> "nack", i |-> 
 WClean == {MCWorld([sch |-> "strict", d |-> 2, dev |-> "none", i |-> 0])}
 WLoop == {MCWorld([sch |-> "peer", d |-> 2, dev |-> "loop", i |-> 2])}
 WOrd == {MCWorld(q) : q \in {[sch |-> "strict", d |-> 2, dev |-> "none", i |-> 0], [sch |-> "strict", d |-> 3, dev |-> "none", i |-> 0],
+                             [sch |-> "strict", d |-> 2, dev |-> "twinforged", i |-> 1], [sch |-> "strict", d |-> 2, dev |-> "twinabsent", i |-> 1],
                              [sch |-> "strict", d |-> 2, dev |-> "forged", i |-> 1], [sch |-> "strict", d |-> 2, dev |-> "absent", i |-> 1],
                              [sch |-> "strict", d |-> 3, dev |-> "subst", i |-> 2], [sch |-> "peer", d |-> 3, dev |-> "none", i |-> 0]}}
 WEd == {[MCWorld(q) EXCEPT !.kt = "ed"] : q \in {[sch |-> "strict", d |-> 2, dev |-> "none", i |-> 0],
                                                  [sch |-> "strict", d |-> 2, dev |-> "forged", i |-> 1]}}
+\* schemas with two roots of trust: an anchor that matches only one of them must be refused
+WTwin == {MCWorld([sch |-> "strict", d |-> 2, dev |-> x, i |-> 1]) : x \in {"twinforged", "twinabsent"}}
+W2R == {MCWorld([sch |-> s, d |-> 2, dev |-> "none", i |-> 0]) : s \in {"two", "twin"}}
+MCAnchors2(v) == IF v = "v1" THEN {"RA", "ROp", "RAx", "RAf"} ELSE {"RB"}
 MCAnchors(v) == IF v = "v1" THEN {"RA", "RAx", "RAf", "RAo"} ELSE {"RB", "RA"}
 MCAnchorsGood(v) == IF v = "v1" THEN {"RA"} ELSE {"RB", "RA"}
 
@@ -374,6 +399,9 @@ W_AcceptDeep == ~(\E i \in 1..Len(out) : out[i].r = "T" /\ Len(wire[out[i].v]) >
 W_CacheHit == ~(\E v \in Inst : Len(out) >= 2 /\ out[1].v = v /\ out[2].v = v /\ out[1].r = "T" /\ out[2].r = "T" /\ Len(wire[v]) = 1)
 W_Refused == ~(\E v \in Inst : inst[v].k = "refused")
 W_RejectOtherAnchor == ~(\E i \in 1..Len(out) : out[i].r = "F" /\ out[i].p = "P1" /\ inst[out[i].v].anchor = "RB" /\ W.q.dev = "none")
+W_TwoRootsAccept == ~(\E v \in Inst : inst[v].k = "ok" /\ Cardinality(W.roots) = 2)
+W_TwoRootsRefuse == ~(\E v \in Inst : inst[v].k = "refused" /\ Cardinality(W.roots) = 2 /\ W.shape[inst[v].anchor] = "root"
+                                       /\ W.certs[inst[v].anchor].sig = W.certs[inst[v].anchor].key)
 W_HealedAccept == ~(\E i \in 1..Len(out) : \E j \in 1..Len(out) : i < j /\ out[i].p = out[j].p /\ out[i].v = out[j].v
                                                                     /\ out[i].r = "F" /\ out[j].r = "T" /\ out[j].e = 1)
 W_TwoInFlight == ~(\A v \in Inst : val[v].k = "run" /\ val[v].pc = "fetching")
